@@ -93,6 +93,8 @@ def structured(kind, n, directed=False):
                        labels (interleaved), no link between them
     components         components of 9, 12, 15 and 23 nodes with interleaved
                        labels plus isolated nodes (needs n >= 62)
+    complete / cocktail / dense   K_n, K_n minus a perfect matching, and a
+                       deterministic graph of density ~0.7 (many triangles)
     Directed graphs get the arcs i -> j of the list plus a back arc for every
     fourth link, so that they are asymmetric."""
     def ring(nodes, step=5):
@@ -121,6 +123,16 @@ def structured(kind, n, directed=False):
         for k in sizes:
             es += ring(labels[start:start + k], 4)
             start += k
+    elif kind == "complete":
+        es = [(i, j) for i in range(n) for j in range(i + 1, n)]
+    elif kind == "cocktail":
+        # complete graph minus the perfect matching i -- i + n/2
+        es = [(i, j) for i in range(n) for j in range(i + 1, n)
+              if j - i != n // 2]
+    elif kind == "dense":
+        # deterministic graph of density ~0.7
+        es = [(i, j) for i in range(n) for j in range(i + 1, n)
+              if (i * 7 + j * 13 + i * j) % 10 < 7]
     else:
         raise ValueError(kind)
     es = sorted({(min(a, b), max(a, b)) for a, b in es if a != b})
